@@ -2,8 +2,6 @@ CONSTANTS
   FULL = TRUE
 INIT Init
 NEXT Next
-INVARIANT LawPct
-INVARIANT LawPctErr
 INVARIANT LawDenote
 INVARIANT LawDevScope
 INVARIANT LawNorm
